@@ -5,7 +5,7 @@ from common import Report
 
 MANIFEST = dict(
     technique='Coq proof that every realizable call stack is bounded (generic theorem over the static call graph + guard set regenerated from SSA each run, instance by vm_compute) + nesting drivers and limit boundaries on the implementation',
-    text="Theorem stack_depth_bounded: for every path in the parser's static call graph on which depth-guard frames have callees only while the counter is within the limit, the number of frames is at most (MaxRecursionDepth+2)*(max rank+1), independent of the input; proved generically and instantiated on the call graph, guard set (increment + deferred decrement + dominating limit check recognised on SSA) and rank witness regenerated from the current source, the acyclicity hypothesis discharged by complete evaluation. 45+ self-embedding productions are driven to depths around the limit and far beyond in a child process on a reused and a fresh parser (depth-counter leaks, history dependence, crashes); the size limit is proved for every limit value on the tokenizer model (reject above with E1006, no effect at or below), the token bound likewise; both limits are also checked exactly at and one past their boundaries through each entry point of the implementation.",
+    text="Theorem stack_depth_bounded: for every path in the parser's static call graph on which depth-guard frames have callees only while the counter is within the limit, the number of frames is at most (MaxRecursionDepth+2)*(max rank+1), independent of the input; proved generically and instantiated on the call graph, guard set (recognised semantically on SSA: the counter is found by its role, a function is a guard when on every path it takes every step of the counter back and every call that can reach a cycle happens with the counter stepped once, the decrement deferred and the counter within the limit; helper methods are summarised into their callers) and rank witness regenerated from the current source, the acyclicity hypothesis discharged by complete evaluation. 45+ self-embedding productions are driven to depths around the limit and far beyond in a child process on a reused and a fresh parser (depth-counter leaks, history dependence, crashes); the size limit is proved for every limit value on the tokenizer model (reject above with E1006, no effect at or below), the token bound likewise; both limits are also checked exactly at and one past their boundaries through each entry point of the implementation.",
     note=common.BASE_NOTE + "Static call graph complete for direct calls (dynamic call sites listed in evidence); frame sizes are the compiler's; the size-limit clause is proved on the tokenizer model (tied by the C04 byte-level correspondence); the token-limit clause is proved as an equivalence for every text of the reference lexical grammar (C02_token_limit_iff via the lex_faithful development) and additionally explored at the boundary on the implementation.",
     design='6/C02')
 
